@@ -130,7 +130,8 @@ theorem takeSnapshot_lift (c : Cfg) (m : Nat) (pre : List Obs) (s : State) :
       simp only [h, h', if_true, Option.map_some]
       rfl
     · have h' : ¬ e.1 + m + 1 = s.rcvdIdx + m := by omega
-      simp only [h, h', if_false, Option.map_none]
+      simp only [h, h', if_false]
+      split <;> rfl
 
 /-- `yieldItem` after its first assignment. -/
 def yieldCore (c : Cfg) (s : State) (b : Nat) : State × Obs :=
@@ -191,8 +192,7 @@ theorem lookupInfo_lift (m : Nat) (l : List Info) (i : Nat) :
   | cons e r ih =>
     simp only [List.map_cons, List.find?_cons, liftInfo]
     by_cases h : e.idx = i
-    · have h' : e.idx + m = i + m := by omega
-      simp [h', h, liftInfo]
+    · simp [h, liftInfo]
     · have h' : (e.idx + m == i + m) = false := by simp; omega
       have h'' : (e.idx == i) = false := by simp [h]
       simp only [h', h'']
@@ -206,8 +206,7 @@ theorem eraseInfo_lift (m : Nat) (l : List Info) (i : Nat) :
   | cons e r ih =>
     simp only [List.map_cons, List.filter_cons, liftInfo]
     by_cases h : e.idx = i
-    · have h' : e.idx + m = i + m := by omega
-      simp only [h', h, bne_self_eq_false, Bool.false_eq_true, if_false]
+    · simp only [h, bne_self_eq_false, Bool.false_eq_true, if_false]
       exact ih
     · have h' : ¬ e.idx + m = i + m := by omega
       simp only [bne_iff_ne, ne_eq, h, h', not_false_eq_true, if_true, List.map_cons, liftInfo]
@@ -221,10 +220,8 @@ theorem setRes_lift (m : Nat) (l : List Info) (i : Nat) (r : Res) :
   intro e _
   simp only [Function.comp, liftInfo]
   by_cases h : e.idx = i
-  · have h' : e.idx + m = i + m := by omega
-    simp [h, h']
-  · have h' : ¬ e.idx + m = i + m := by omega
-    simp [h, h']
+  · simp [h]
+  · simp [h]
 
 /-! ## `_next_data` -/
 
